@@ -967,6 +967,7 @@ def make_plan(seed, run, profile_name, clean=None, force=None):
 
     reuse_configs = rng.random() < 0.5
     reuse_estimates = rng.random() < 0.5
+    frame_handoff = rng.choice(["as_is"] * 15 + ["rebuilt"] * 3 + ["reverse"] * 2)
     stamp_as_gt_time = rng.random() < 0.4
     sibling = rng.random() < prof.get("sibling_p", 0.0)
     plan = {
@@ -993,6 +994,9 @@ def make_plan(seed, run, profile_name, clean=None, force=None):
         "reuse_configs": reuse_configs,
         # a re-delivered message may be handed over as the very same estimate objects, or as freshly built ones
         "reuse_estimates": reuse_estimates,
+        # the driver hands the looked-up frame over as it is, or as a FrameGroundTruth it built itself from the same
+        # objects (optionally registering the ego pose in the map->ego direction, which TransformDict resolves by inversion)
+        "frame_handoff": frame_handoff,
         # estimates may be stamped with the message stamp or (as perception_lsim.py does) with the ground-truth frame's time
         "stamp_as_gt_time": stamp_as_gt_time,
         "sibling": sibling,
